@@ -277,8 +277,10 @@ def generic(ck, prog, fld, d, irr, p, base, ref_frob):
         paths = it.run(f, [x])
         early = [(cs, v) for cs, v in paths if same(v, x)]
         main = [(cs, v) for cs, v in paths if not same(v, x)]
-        if not early or not main:
-            return False, f"expected an early return of self and a computing path, found {len(early)} / {len(main)}"
+        # an early `return self` for zero is one way to handle the zero element; a base-field fast path that inverts coordinate 0 in the
+        # base field (whose inverse of 0 is 0 — a C07 matter) is another: only a computing path is required
+        if not main:
+            return False, f"no computing path found ({len(early)} early / {len(main)} computing)"
         for cs, v in early:
             zeroed = set()
             for polys, allzero in cs:
